@@ -5,7 +5,7 @@
    invariants and per-step lemmas of ReaderInv.v / ReaderProofs.v. *)
 Require Import Bytes Stream Utf8Spec Check Frame Cipher Utf8Dfa Extracted ExtractedOk Reader
   BytesProofs StreamProofs CheckProofs FrameProofs CipherProofs Utf8Proofs ReaderLocalProofs
-  ReaderCutProofs ReaderAux ReaderInv ReaderProofs ReaderXInv ReaderXProofs.
+  ReaderCutProofs ReaderAux ReaderInv ReaderProofs ReaderXInv ReaderXProofs ReaderTotalProofs.
 From Coq Require Import ZifyBool ZifyN ZifyNat.
 Open Scope N_scope.
 
@@ -527,4 +527,171 @@ Proof.
     intros k evs. destruct (Hsp k evs) as (k1 & Heq1). exists k1.
     rewrite concat_rev_cons, Hacc. exact Heq1.
   - do 3 eexists. split; [reflexivity|]. right. split; [exact Hne|]. exact Hsp.
+Qed.
+
+(* ------------------------------------------------------------------ Discard *)
+(* after NextFrame handled an intermediate control frame, nothing of it is left to drain *)
+Lemma next_frame_ctl_rawN r h r' : next_frame r = ((h, None), r') -> r_frame r' = false -> r_rawN r' = 0.
+Proof.
+  unfold next_frame, cb_read_all, raw_drain.
+  destruct (reader_read_header (r_src r)) as [[e|hdr] s1]; [discriminate|].
+  destruct (if r_skip r then None else check_header hdr (r_state r)); [discriminate|].
+  destruct ((0 <? r_max r)%Z && (r_max r <? h_len hdr)%Z); [discriminate|].
+  destruct (if r_ext r then unset_bits hdr (r_compressed r) else Some (hdr, r_compressed r)) as [[hdr' comp']|];
+    [|discriminate].
+  destruct (st_fragmented (r_state r) && op_is_control (h_op hdr')).
+  2: { intros H. injection H as _ <-. rsimpl. discriminate. }
+  destruct (r_cb r); rsimpl.
+  - pose proof (read_full_gen (Z.to_N (h_len hdr)) s1) as G.
+    destruct (read_full (Z.to_N (h_len hdr)) s1) as [[b e] s2]. destruct G as (_ & G & _).
+    destruct e as [[| |]|]; try discriminate. intros H. injection H as _ <-. rsimpl. intros _.
+    rewrite (G eq_refl). apply N.sub_diag.
+  - destruct (read_full (Z.to_N (h_len hdr)) s1) as [[b e] s2]. destruct e as [[| |]|]; try discriminate. rsimpl.
+    pose proof (read_full_gen (Z.to_N (h_len hdr) - len b) s2) as G.
+    destruct (read_full (Z.to_N (h_len hdr) - len b) s2) as [[b2 e2] s3]. destruct G as (_ & G & _).
+    destruct e2 as [[| |]|]; try discriminate. intros H. injection H as _ <-. rsimpl. intros _.
+    rewrite (G eq_refl). apply N.sub_diag.
+Qed.
+
+(* the fields Discard's drain leaves alone *)
+Definition same_ctl (r r1 : reader) : Prop :=
+  r_state r1 = r_state r /\ r_skip r1 = r_skip r /\ r_check_utf8 r1 = r_check_utf8 r /\ r_max r1 = r_max r /\
+  r_ext r1 = r_ext r /\ r_compressed r1 = r_compressed r /\ r_cb r1 = r_cb r /\ r_opcode r1 = r_opcode r /\
+  r_frame r1 = r_frame r /\ r_u8state r1 = r_u8state r /\ r_log r1 = r_log r.
+
+Lemma drain_ok r a b : wf_src (r_src r) -> flat (r_src r) = a ++ b -> r_rawN r = len a ->
+  exists r1, raw_drain r = (None, r1) /\ wf_src (r_src r1) /\ tl (r_src r1) = tl (r_src r) /\
+    flat (r_src r1) = b /\ r_rawN r1 = 0 /\ same_ctl r r1.
+Proof.
+  intros Hw Hfl Hn. unfold raw_drain.
+  pose proof (read_full_ok (r_rawN r) (r_src r) Hw ltac:(rewrite Hfl, len_app; lia)) as R.
+  destruct (read_full (r_rawN r) (r_src r)) as [[x e] s']. destruct R as (-> & -> & Hf' & Hw' & Ht').
+  eexists. split; [reflexivity|]. unfold same_ctl. rsimpl.
+  split; [exact Hw'|]. split; [exact Ht'|]. split.
+  { rewrite Hf', Hfl, Hn. rewrite drop_app_ge by lia. rewrite N.sub_diag. apply drop_0. }
+  split; [rewrite len_take, Hfl, len_app; lia|]. repeat split; reflexivity.
+Qed.
+
+(* what a successful Discard leaves: the Reader at the frame boundary after the
+   message, only intermediate control events logged, and the spec has emitted
+   exactly those and then the message [ev] that nobody read *)
+Definition dres (c : rcfg) (X : option rerror * reader) (sr : spec_result) (lg evs : list event) (n : nat) : Prop :=
+  exists k' mid ev rest' r', X = (None, r') /\ Bnd c None (lg ++ mid) rest' r' /\
+    all_inter mid /\ ev_inter ev = false /\ sr = spec_run c k' None (evs ++ mid ++ [ev]) rest' /\
+    (length (flat (r_src r')) <= n)%nat.
+
+Lemma discard_spec c : wf_cfg c -> forall fuel st lg rest rn fr s0 k evs,
+  minv c st lg rest rn -> (forall m, st = MBet m -> r_rawN rn = 0) ->
+  (length (flat (r_src rn)) < fuel)%nat ->
+  sr_out (mspec c k st evs rest) = OClean ->
+  dres c (discard fuel (with_fix rn fr s0)) (mspec c k st evs rest) lg evs (length (flat (r_src rn))).
+Proof.
+  intros Hc. induction fuel as [|fuel IH]; intros st lg rest rn fr s0 k evs Hinv Hraw Hfuel Hclean; [lia|].
+  (* after the drain, between two fragments *)
+  assert (C: forall m lg rest r1n fr st k evs, Bnd c (Some m) lg rest r1n ->
+     (length (flat (r_src r1n)) < S fuel)%nat -> sr_out (spec_run c k (Some m) evs rest) = OClean ->
+     dres c (let '((_, e2), r2) := next_frame (with_fix r1n fr st) in
+             match e2 with Some e2 => (Some e2, reset r2) | None => discard fuel r2 end)
+          (spec_run c k (Some m) evs rest) lg evs (length (flat (r_src r1n)))).
+  { clear - Hc IH. intros m lg rest r1n fr st k evs HB Hf Hclean.
+    destruct (next_frame_fix r1n fr st) as [fr' E]. rewrite E. clear E.
+    destruct rest as [|f rest].
+    - exfalso. rewrite spec_run_nil in Hclean. discriminate Hclean.
+    - destruct (next_frame_spec c (Some m) lg f rest r1n Hc HB) as (h & e & r2 & Hnf & H). rewrite Hnf. cbn [fst snd].
+      destruct e as [err|].
+      + exfalso. destruct H as (_ & Hsp). destruct (Hsp k evs) as (out & Heq & _ & _ & Hnc).
+        rewrite Heq in Hclean. apply Hnc, Hclean.
+      + destruct H as (Hlen & [(m0 & Hm0 & Hfr1 & HB2 & Hsp)|(Hop & HM & Hsp)]).
+        * injection Hm0 as <-. rewrite Hsp in Hclean |- *.
+          pose proof (next_frame_ctl_rawN _ _ _ Hnf Hfr1) as Hr0.
+          destruct (IH (MBet m) _ rest r2 fr' st (S k) _ HB2 ltac:(intros; exact Hr0) ltac:(lia) Hclean)
+            as (k' & mid & ev & rest' & r' & Hd & HB' & Hmid & Hev & Heq & Hle).
+          exists k', ([mkEv (sf_op f) (sf_payload f) true (m_comp m)] ++ mid), ev, rest', r'.
+          split; [exact Hd|]. rewrite app_assoc. split; [exact HB'|].
+          split; [constructor; [reflexivity|exact Hmid]|]. split; [exact Hev|].
+          split; [cbn [mspec] in Heq; rewrite Heq, <- !app_assoc; reflexivity|lia].
+        * cbn [msg_of] in *. rewrite Hsp in Hclean |- *.
+          destruct (IH (MMid m f [] (sf_payload f)) lg rest r2 fr' st k evs HM ltac:(intros; discriminate) ltac:(lia) Hclean)
+            as (k' & mid & ev & rest' & r' & Hd & HB' & Hmid & Hev & Heq & Hle).
+          exists k', mid, ev, rest', r'. split; [exact Hd|]. split; [exact HB'|]. split; [exact Hmid|].
+          split; [exact Hev|]. split; [exact Heq|lia]. }
+  cbn [discard]. rewrite raw_drain_fix.
+  destruct st as [m f pre post|m]; cbn [minv mspec] in *.
+  - (* inside a frame: drain it *)
+    pose proof Hinv as [Hcfg (Hw & Ht & Hfl) Hwf Hf Hpay Hwacc Hlog Hst Hfr Hopc Hcompr Hnoext Hctlfin HrawN Hmk Hkey Hwrap Hu8].
+    destruct (drain_ok rn (wpay f (len pre) post) (wire rest) Hw Hfl ltac:(rewrite HrawN, len_wpay; reflexivity))
+      as (r1 & Hdr & Hw1 & Ht1 & Hf1 & Hr1 & Hsame).
+    rewrite Hdr. cbn [fst snd].
+    destruct Hsame as (S1 & S2 & S3 & S4 & S5 & S6 & S7 & S8 & S9 & S10 & S11).
+    assert (Hlen1: (length (flat (r_src r1)) <= length (flat (r_src rn)))%nat).
+    { rewrite Hf1, Hfl, app_length. clear. lia. }
+    assert (Hcfg1: cfg_ok c r1).
+    { unfold cfg_ok in *. rewrite S2, S3, S4, S5, S7. exact Hcfg. }
+    change (r_state (with_fix r1 fr s0)) with (r_state r1). rewrite S1, Hst, st_frag_set, negb_involutive.
+    destruct m as [[o a] cm]. cbn [m_op m_acc m_comp fst snd] in *.
+    unfold spec_data in Hclean |- *.
+    destruct (wrap_of c o && negb (if sf_fin f then valid_utf8 (a ++ sf_payload f) else utf8_viable (a ++ sf_payload f))) eqn:Hu;
+      [discriminate Hclean|].
+    destruct (sf_fin f) eqn:Hfin.
+    + (* last fragment *)
+      exists (S k), [], (mkEv o (a ++ sf_payload f) false cm), rest, (reset r1).
+      split; [reflexivity|]. rewrite app_nil_r. split.
+      { constructor; rsimpl; cbn [is_some].
+        - exact Hcfg1.
+        - unfold src_ok; rsimpl. repeat split; [exact Hw1|congruence|exact Hf1].
+        - exact Hwf.
+        - congruence.
+        - rewrite S1, Hst. reflexivity.
+        - rewrite S6. exact Hnoext.
+        - reflexivity. }
+      split; [constructor|]. split; [reflexivity|]. split; [reflexivity|exact Hlen1].
+    + (* more fragments follow *)
+      set (m' := (o, a ++ sf_payload f, cm)).
+      set (stg := if wrap_of c o then u8_run 0 (a ++ sf_payload f) else 0).
+      assert (Hwfacc': wf_bytes (a ++ sf_payload f)) by (apply wf_bytes_app; split; [exact Hwacc|apply Hf]).
+      assert (Hnctl: spec_control o = false).
+      { destruct (spec_control o); [|reflexivity]. specialize (Hctlfin eq_refl). discriminate. }
+      assert (HB1: Bnd c (Some m') lg rest (with_fix r1 false stg)).
+      { constructor; fsimpl; cbn [is_some m_op m_acc m_comp fst snd].
+        - exact Hcfg1.
+        - unfold src_ok; fsimpl. repeat split; [exact Hw1|congruence|exact Hf1].
+        - exact Hwf.
+        - congruence.
+        - rewrite S1, Hst. reflexivity.
+        - rewrite S6. exact Hnoext.
+        - unfold m'. cbn [m_op m_acc m_comp fst snd]. split; [reflexivity|]. split; [congruence|]. split.
+          { rewrite S6. destruct Hcompr as [Hx|Hx]; [exact Hx|congruence]. }
+          split; [|split; assumption].
+          unfold u8_ok; fsimpl. split; [reflexivity|]. unfold stg. destruct (wrap_of c o) eqn:Hwr.
+          + cbn [andb] in Hu. rewrite utf8_viable_dfa in Hu by exact Hwfacc'. split.
+            * intros E. rewrite E in Hu. discriminate Hu.
+            * apply run_states; [exact Hwfacc'|simpl; tauto].
+          + split; [discriminate|simpl; tauto]. }
+      change (with_fix r1 fr s0) with (with_fix (with_fix r1 false stg) fr s0).
+      assert (Hfu1: (length (flat (r_src (with_fix r1 false stg))) < S fuel)%nat) by (fsimpl; clear -Hlen1 Hfuel; lia).
+      destruct (C m' lg rest (with_fix r1 false stg) fr s0 (S k) evs HB1 Hfu1 Hclean)
+        as (k' & mid & ev & rest' & r' & Hd & HB' & Hmid & Hev & Heq & Hle).
+      exists k', mid, ev, rest', r'. split; [exact Hd|]. split; [exact HB'|]. split; [exact Hmid|].
+      split; [exact Hev|]. split; [exact Heq|]. fsimpl. clear -Hle Hlen1. lia.
+  - (* between two fragments: nothing to drain *)
+    specialize (Hraw m eq_refl).
+    pose proof Hinv as [Hcfg (Hw & Ht & Hfl) Hwf Hlog Hst Hcz Hmsg].
+    destruct (drain_ok rn [] (wire rest) Hw Hfl Hraw) as (r1 & Hdr & Hw1 & Ht1 & Hf1 & Hr1 & Hsame).
+    rewrite Hdr. cbn [fst snd].
+    destruct Hsame as (S1 & S2 & S3 & S4 & S5 & S6 & S7 & S8 & S9 & S10 & S11).
+    assert (HB1: Bnd c (Some m) lg rest r1).
+    { constructor.
+      - unfold cfg_ok in *. rewrite S2, S3, S4, S5, S7. exact Hcfg.
+      - unfold src_ok. repeat split; [exact Hw1|congruence|exact Hf1].
+      - exact Hwf.
+      - congruence.
+      - congruence.
+      - rewrite S6. exact Hcz.
+      - unfold u8_ok in *. rewrite S9, S8, S6, S10. exact Hmsg. }
+    change (r_state (with_fix r1 fr s0)) with (r_state r1). rewrite S1, Hst, st_frag_set. cbn [is_some negb].
+    assert (Hfu1: (length (flat (r_src r1)) < S fuel)%nat) by (rewrite Hf1; rewrite Hfl in Hfuel; exact Hfuel).
+    destruct (C m lg rest r1 fr s0 k evs HB1 Hfu1 Hclean)
+      as (k' & mid & ev & rest' & r' & Hd & HB' & Hmid & Hev & Heq & Hle).
+    exists k', mid, ev, rest', r'. split; [exact Hd|]. split; [exact HB'|]. split; [exact Hmid|].
+    split; [exact Hev|]. split; [exact Heq|]. rewrite Hf1 in Hle. rewrite Hfl. exact Hle.
 Qed.
